@@ -1,3 +1,4 @@
+import PoaVerif.Facts
 import PoaVerif.Model.Spec
 import PoaVerif.Witness.D1
 import PoaVerif.Witness.D2
@@ -12,6 +13,14 @@ import PoaVerif.Witness.Q2
 -/
 namespace PoaVerif.Props.C03
 open App
+
+/-- Tie A side condition: in the EndBlocker order x/gov comes before x/poa and x/staking.  Messages of passed governance
+    proposals (the default PoA admin is the gov account) are executed by x/gov's EndBlocker; the model — and the property
+    — place every admin operation of a block before x/staking's EndBlocker computes that block's validator updates. -/
+theorem facts_endblock_order :
+    Generated.endBlockers.idxOf "govtypes.ModuleName" < Generated.endBlockers.idxOf "poa.ModuleName" ∧
+    Generated.endBlockers.idxOf "poa.ModuleName" < Generated.endBlockers.idxOf "stakingtypes.ModuleName" ∧
+    Generated.endBlockers.idxOf "stakingtypes.ModuleName" < Generated.endBlockers.length := by decide
 
 theorem d1_realistic : Realistic genEnv Witness.D1.g Witness.D1.blocks
     ⟨⟨⟨[], Witness.D1.u0⟩, Witness.D1.s0, Witness.D1.c0⟩, Witness.D1.steps, Witness.D1.ending⟩ := by
